@@ -566,6 +566,7 @@ func (h *histRun) freshLoadRecords(tag string) map[string][]byte {
 		return nil
 	}
 	w2.bodies = h.p.bodySpecs(w2.root)
+	w2.exts = h.w.exts
 	res := w2.process(fmt.Sprintf("%sfresh-%s", h.prefix, tag), h.pc, buildOpts{LoadOnly: true, Args: h.p.args()}, nil)
 	h.w.ctx.Sim(res.Sim, simcheck.ScenarioHash(h.p), h.pc.Strategy)
 	if res.Sim.Failure != nil || res.LoadErr != nil {
@@ -584,6 +585,7 @@ func (h *histRun) liveRecordNames(tag string) (map[string]bool, *simcheck.Violat
 		return nil, simcheck.V(simcheck.EngineError, "copy: %v", err)
 	}
 	w2.bodies = h.p.bodySpecs(w2.root)
+	w2.exts = h.w.exts
 	pc := h.pc
 	for i, l := range h.p.buildLabels() {
 		res := w2.process(fmt.Sprintf("%slive-%s-%d", h.prefix, tag, i), pc, buildOpts{Label: l, Args: h.p.args()}, nil)
